@@ -22,7 +22,7 @@ import (
 // Exp is the expected decoded form of a JSON value (refenc), written from the
 // property statements, not from zerolog's encoders.
 type Exp struct {
-	Kind  byte   // 's' string (decoded text Str), 'n' number with exact text Str, 't','f','z' (null), 'a' array, 'o' object, 'r' verbatim raw JSON text Str, '?' any valid value
+	Kind  byte // 's' string (decoded text Str), 'n' number with exact text Str, 't','f','z' (null), 'a' array, 'o' object, 'r' verbatim raw JSON text Str, '?' any valid value
 	Str   string
 	Items []Exp
 	KVs   []KV
@@ -35,19 +35,28 @@ type KV struct {
 	Opt bool
 }
 
-func S(s string) Exp      { return Exp{Kind: 's', Str: Sanitize(s)} }
-func N(s string) Exp      { return Exp{Kind: 'n', Str: s} }
+func S(s string) Exp { return Exp{Kind: 's', Str: Sanitize(s)} }
+func N(s string) Exp { return Exp{Kind: 'n', Str: s} }
 func B(b bool) Exp {
 	if b {
 		return Exp{Kind: 't'}
 	}
 	return Exp{Kind: 'f'}
 }
-func Null() Exp           { return Exp{Kind: 'z'} }
-func Any() Exp            { return Exp{Kind: '?'} }
-func Raw(s string) Exp    { return Exp{Kind: 'r', Str: s} }
+
+// Null is the expectation for a nil value. Several nil positions (nil error elements, nil Stringer, nil
+// error in an array) are written through AppendInterface(nil): with a deviating InterfaceMarshalFunc
+// installed they carry whatever that function returns, which the statements leave open.
+func Null() Exp {
+	if !InterfaceMarshalDefault {
+		return Any()
+	}
+	return Exp{Kind: 'z'}
+}
+func Any() Exp             { return Exp{Kind: '?'} }
+func Raw(s string) Exp     { return Exp{Kind: 'r', Str: s} }
 func Arr(items ...Exp) Exp { return Exp{Kind: 'a', Items: items} }
-func Obj(kvs ...KV) Exp   { return Exp{Kind: 'o', KVs: kvs} }
+func Obj(kvs ...KV) Exp    { return Exp{Kind: 'o', KVs: kvs} }
 
 func (e Exp) String() string {
 	switch e.Kind {
@@ -335,7 +344,9 @@ func ValueExp(f Field) (Exp, bool) {
 		}
 		return sliceExp(f.Val, func(v reflect.Value) Exp {
 			if v.IsNil() {
-				return Null()
+				// a nil interface element takes the default arm of the type switch: AppendInterface(nil),
+				// i.e. whatever InterfaceMarshalFunc makes of nil (a typed nil pointer is written as null)
+				return ifaceExp(nil)
 			}
 			return errElemExp(v.Interface().(error))
 		}), true
